@@ -82,6 +82,15 @@ claim("C19", "PARTIAL. The FirFilter class (plain Python inside fir.pyx; also th
       note=TRUST + " NOT covered (not applicable to this technique here): generic IirFilter, the three ChickenSys IIR presets, _c_chicken_sys_convolve_valid arithmetic. "
       "Known finding F9 (short blocks / 1-tap) is listed in known_findings.txt.")
 
+ST = "bounded symbolic execution of the real string/regex code with symx (own z3-backed executor: char-array strings, live regexes compiled to formulas)"
+
+claim("C06", "The real make_export_name is executed on a symbolic name (all strings up to the stated length over code points < 128): z3 shows every path "
+      "component is non-empty, matches \\w[\\w\\-.#() ]*, has no trailing blank/dot and is not ./.. ; the real sanitize_names_general (+_add_count_to_name) "
+      "on N symbolic sibling candidates assigns pairwise distinct names inside that language; the real combine_stereo_routine keeps N distinct names "
+      "distinct except in the listed known-finding region (stem of a merged pair equals another name); joined components cannot leave the destination; "
+      "and (CrossHair) every directory class - generic, AKAI image/volume, CDDA image, Roland performance/partial - applies both renaming routines to its "
+      "children exactly once.", ST + "; CrossHair for the per-level routine obligations", "DESIGN.md 2/C06")
+
 _pending = "check not built yet in this session (work in progress; see DESIGN.md section 2 for the planned obligations)"
 for _p in ["C01","C02","C03","C04","C05","C06","C07","C09","C10","C11","C12","C13","C14","C15","C16","C17","C18","C19","C20"]:
     if _p not in CHECKS:
